@@ -22,6 +22,7 @@ META = dict(
          "(whether u(1-eps) is representable below u) is not decided.",
     technique="expression extraction from the AST + interval/sign reasoning with computer algebra",
 )
+META["text"] += ' (R5, N) no estimator, bet or test obtains a parameter as `value or default`, which would replace a configured 0 (a legitimate assumed error rate, shrinkage weight or padding) by the default.'
 
 REL = nnm.REL
 
